@@ -13,7 +13,6 @@ namespace Mistral.Props.C03RaceCac
 open Mistral.Race Mistral.Gen.RaceScripts
 
 set_option maxRecDepth 8000
-set_option maxHeartbeats 1000000
 set_option linter.unusedSimpArgs false
 
 /-- executions are not deleted while they complete -/
